@@ -2,7 +2,8 @@
    (commits 140db63, ac6ea40) and the model follows the repaired code (RevId.code_fixed = true).
    The old behaviour stays reachable through the [false] instances; the witnesses below are evaluated
    on it.  Not part of the property obligations. *)
-From SG Require Import Base.Prelude C04.RevId C04.RevTree C04.DocModel C04.WinnerProofs C04.DocProofs C04.C04_Properties.
+From SG Require Import Base.Prelude C04.RevId C04.RevTree C04.DocModel C04.WinnerProofs C04.WfProofs C04.FlagsProofs C04.DocProofs
+  C04.History C04.HistoryProofs C04.C04_Properties.
 Open Scope N_scope.
 
 (* old documentUpdateFunc: flags computed BEFORE pruneRevisions and never revisited; when pruning removes
@@ -50,3 +51,24 @@ Example C04_noncanonical_ids_rejected :
   parse_revid_gen true [48;49;45;97] = None /\ parse_revid_gen true [43;49;45;97] = None /\
   parse_revid_gen true [49;45;97] = Some (1, [97]).
 Proof. vm_compute. repeat split. Qed.
+
+(* ---- deepening round: a refuted READING, not a defect of the code ----
+   "Prune all branches so that they have a maximum depth of maxdepth" (comment of pruneRevisions) does not
+   mean that every leaf's retained history has at most maxDepth entries: computeDepthsAndFindLeaves gives a
+   node the distance to its NEAREST leaf, so a long branch keeps an ancestor that a short sibling branch
+   keeps alive.  What holds is C04_prune_depth_bound (nearest leaf) and C04_history_after_prune (prefix).
+   Tree 1-a <- 2-a <- 3-a and 1-a <- 2-b, maxDepth 2: nothing is pruned, the history of 3-a has 3 entries. *)
+Definition two_branches : tree :=
+  [ R (I 2 [98]) (Some (I 1 [97])) false; R (I 3 [97]) (Some (I 2 [97])) false;
+    R (I 2 [97]) (Some (I 1 [97])) false; R (I 1 [97]) None false ].
+
+Theorem C04_per_leaf_history_bound_refuted :
+  exists maxd t l, wf t /\ 1 <= maxd /\ In l (leaves (fst (prune maxd t))) /\
+    maxd < N.of_nat (length (fst (get_history (fst (prune maxd t)) (rid l)))).
+Proof.
+  exists 2, two_branches, (R (I 3 [97]) (Some (I 2 [97])) false). split.
+  - apply (add_all_wf (List.rev two_branches) [] two_branches wf_nil).
+    + intros r H. cbn in H. intuition (subst; cbn; lia).
+    + vm_compute. reflexivity.
+  - split; [lia|]. split; [vm_compute; tauto | vm_compute; reflexivity].
+Qed.
